@@ -234,6 +234,8 @@ def gen_vmdk_descriptor(rng):
         typ = rng.choice(["SPARSE", "FLAT", "VMFS", "VMFSSPARSE", "ZERO", "SESPARSE", "VMFSRDM", "VMFSRAW"])
         n = rng.choice([0, 1, 2048, 4192256, (1 << 40)])
         fname = rng.choice(["disk-s001.vmdk", "my disk-flat.vmdk", "dïsk.vmdk", "a b  c.vmdk", "disk=1#.vmdk"])
+        if random.Random(repr((fname, len(extents)))).random() < 0.3:  # private generator: the main stream stays as it was
+            fname = random.Random(repr(fname)).choice(['my "old" disk.vmdk', 'copy of "base" 2.vmdk', 'a" b.vmdk'])  # inner quotes followed by a space
         start = rng.choice([None, 0, 128, 2048]) if typ in ("FLAT", "VMFS", "VMFSRAW") else None
         if typ == "ZERO":
             extents.append((acc, n, typ, None, None))
